@@ -1,11 +1,284 @@
 /-
-  C14 — property theorems only (placeholder until the refinement proof lands).
+  C14 — the verdict does not depend on map iteration order: neither on the order in which the schema's maps
+  (properties, patternProperties, $defs, definitions, dependencies, dependentRequired, dependentSchemas) are listed, nor
+  on the order of the members of the objects of the instance, at any depth.
+  Property theorems only (helper lemmas: JSV/Proofs/InvPerm.lean … InvPerm5.lean, InvPermLoops.lean).
 -/
-import JSV.Model.Validate
+import JSV.Proofs.InvPermLoops
+import JSV.Props.C01
+import JSV.Props.C08
 namespace JSV.C14
-open JSV Go
+open JSV Go GoVal Refine
 
-theorem validateFuel_zero (env : VEnv) (stack : List NodeId) (i : GoVal) (s : NodeId) :
-    validateFuel env 0 stack i s = .fuel := rfl
+/-! ## the key-permutation relations -/
+
+/-- `b` is `a` with the entry lists of properties, patternProperties, defs, definitions, dependencySchemas,
+    dependencyStrings, dependentRequired, dependentSchemas each replaced by a `List.Perm` of it (`none` stays `none`);
+    all other fields equal -/
+abbrev permNode (a b : Node) : Prop := Inv.permNode a b
+
+/-- same size, and at every place two schema objects related by `permNode` -/
+abbrev permStore (s1 s2 : Store) : Prop := Inv.permStore s1 s2
+
+/-- the same JSON value up to the order of object members at every depth (a structurally recursive predicate;
+    the three theorems below are its introduction/elimination rules as an inductive definition would state them) -/
+abbrev permJson (a b : Json) : Prop := Inv.permJson a b
+
+theorem permStore_iff (s1 s2 : Store) :
+    permStore s1 s2 ↔ s1.size = s2.size ∧
+      ∀ i, match s1.get? i, s2.get? i with
+        | some a, some b => permNode a b
+        | none, none => True
+        | _, _ => False := Iff.rfl
+
+theorem permNode_iff (a b : Node) :
+    permNode a b ↔ ∃ p pp d df ds dst dr dsc,
+      Inv.optPerm a.properties p ∧ Inv.optPerm a.patternProperties pp ∧ Inv.optPerm a.defs d ∧
+      Inv.optPerm a.definitions df ∧ Inv.optPerm a.dependencySchemas ds ∧ Inv.optPerm a.dependencyStrings dst ∧
+      Inv.optPerm a.dependentRequired dr ∧ Inv.optPerm a.dependentSchemas dsc ∧
+      b = { a with properties := p, patternProperties := pp, defs := d, definitions := df, dependencySchemas := ds,
+                   dependencyStrings := dst, dependentRequired := dr, dependentSchemas := dsc } := Iff.rfl
+
+/-- scalars: only to themselves -/
+theorem permJson_scalar (a b : Json) (ha : ∀ xs, a ≠ .arr xs) (ho : ∀ kvs, a ≠ .obj kvs) : permJson a b ↔ a = b := by
+  cases a <;> cases b <;> simp_all [Inv.permJson]
+
+/-- arrays: element-wise, same order -/
+theorem permJson_arr (xs ys : List Json) : permJson (.arr xs) (.arr ys) ↔ Inv.All₂ permJson xs ys :=
+  Inv.permJson_arr
+
+/-- objects: the entry list of one is, entry by entry (same key, related values), a permutation of the other's -/
+theorem permJson_obj (k1 k2 : List (String × Json)) :
+    permJson (.obj k1) (.obj k2) ↔
+      ∃ k', Inv.All₂ (fun p q => p.1 = q.1 ∧ permJson p.2 q.2) k1 k' ∧ k'.Perm k2 :=
+  Inv.permJson_obj
+
+theorem permJson_refl (j : Json) : permJson j j := Inv.permJson_refl j
+
+/-- in particular any reordering of the members of an object -/
+theorem permJson_of_perm (k1 k2 : List (String × Json)) (h : k1.Perm k2) : permJson (.obj k1) (.obj k2) :=
+  Inv.permJson_of_perm h
+
+theorem permJson_WF (a b : Json) (h : permJson a b) (ha : Json.WF a = true) : Json.WF b = true :=
+  Inv.permJson_WF a b h ha
+
+/-! ## first step: JSON equality does not see the order of members -/
+
+theorem eqv_perm (a b : Json) (h : permJson a b) (ha : Json.WF a = true) (hb : Json.WF b = true) :
+    Json.eqv a b = true :=
+  Inv.eqv_perm a b h ha hb
+
+/-- hence `Equal` of the package on the decoded values -/
+theorem equal_perm (a b : Json) (h : permJson a b) (ha : Json.WF a = true) :
+    Go.equalValue (GoVal.ofJson a) (GoVal.ofJson b) = .ok true := by
+  rw [C11.equal_iff _ _ a b (denote_ofJson a) (denote_ofJson b),
+      eqv_perm a b h ha (permJson_WF a b h ha)]
+
+/-! ## loop level: the evaluator's loops over schema-side maps -/
+
+/-- missingProperties: the order of the required names does not matter … -/
+theorem allPresent_perm (kvs : List (String × GoVal)) (ps1 ps2 : List String) (h : ps1.Perm ps2) :
+    Go.allPresent kvs ps1 = Go.allPresent kvs ps2 :=
+  Inv.allPresent_perm_props kvs h
+
+/-- … nor does the order of the instance's members -/
+theorem allPresent_perm_instance (kvs1 kvs2 : List (String × GoVal)) (h : kvs1.Perm kvs2) (ps : List String) :
+    Go.allPresent kvs1 ps = Go.allPresent kvs2 ps :=
+  Inv.allPresent_perm_inst h ps
+
+/-- dependentRequired / string-form dependencies: iteration order of the map is irrelevant -/
+theorem depRequiredLoop_perm (kvs : List (String × GoVal)) (ds1 ds2 : List (String × Option (List String)))
+    (h : ds1.Perm ds2) : Go.depRequiredLoop kvs ds1 = Go.depRequiredLoop kvs ds2 :=
+  Inv.depRequiredLoop_perm kvs h
+
+theorem depRequiredLoop_perm_instance (kvs1 kvs2 : List (String × GoVal)) (h : kvs1.Perm kvs2)
+    (ds : List (String × Option (List String))) : Go.depRequiredLoop kvs1 ds = Go.depRequiredLoop kvs2 ds :=
+  Inv.depRequiredLoop_perm_inst h ds
+
+/-- `properties`: when every subschema application the loop can make returns a verdict (error or nil — no panic,
+    enough fuel), iterating the map in another order gives the same verdict and the same evaluated keys up to order.
+    (With a panicking application the FIRST failure met decides between error and panic: order-dependent, and
+    outside the domain of the Spec.) -/
+theorem propertiesLoop_perm (rec : Go.Rec) (stack : List NodeId) (kvs : List (String × GoVal))
+    (props1 props2 : List (String × NodeId)) (h : props1.Perm props2)
+    (hdec : ∀ e, e ∈ props1 → ∀ v, Json.lookup e.1 kvs = some v → rec stack v e.2 = .err ∨ ∃ a, rec stack v e.2 = .ok a)
+    (ev : List String) :
+    (match Go.propertiesLoop rec stack kvs props1 ev, Go.propertiesLoop rec stack kvs props2 ev with
+     | .ok e1, .ok e2 => e1.Perm e2
+     | .err, .err => True
+     | _, _ => False) :=
+  Inv.propertiesLoop_perm rec stack kvs h hdec ev
+
+/-! ## the Spec -/
+
+/-- **Spec level.**  Permuting the maps of every schema object and the members of every object of the instance
+    changes neither definedness nor the verdict.  (`StoreWF`: the keys of every `properties` map are distinct, as in
+    a Go map.) -/
+theorem spec_perm_invariant (env : Spec.Env) (st1 st2 : Store) (hst : permStore st1 st2) (hwf : StoreWF st1)
+    (j1 j2 : Json) (hj : permJson j1 j2) (hw : Json.WF j1 = true) (fuel : Nat) (scope : List NodeId) (s : NodeId) :
+    (Spec.evalFuel { env with st := st1 } fuel scope s j1).map (·.isSome)
+      = (Spec.evalFuel { env with st := st2 } fuel scope s j2).map (·.isSome) := by
+  have h := Inv.evalFuel_sim env st1 st2 hst hwf fuel scope s j1 j2 hj hw
+  generalize Spec.evalFuel { env with st := st1 } fuel scope s j1 = o1 at h ⊢
+  generalize Spec.evalFuel { env with st := st2 } fuel scope s j2 = o2 at h ⊢
+  cases o1 <;> cases o2
+  · rfl
+  · exact False.elim h
+  · exact False.elim h
+  · simp only [Option.map_some]; rw [Inv.RSim.isSome_eq h]
+
+/-- … and the evaluated properties and items are the same sets -/
+theorem spec_perm_invariant_evaluated (env : Spec.Env) (st1 st2 : Store) (hst : permStore st1 st2) (hwf : StoreWF st1)
+    (j1 j2 : Json) (hj : permJson j1 j2) (hw : Json.WF j1 = true) (fuel : Nat) (scope : List NodeId) (s : NodeId)
+    (e1 e2 : Spec.Ev) (h1 : Spec.evalFuel { env with st := st1 } fuel scope s j1 = some (some e1))
+    (h2 : Spec.evalFuel { env with st := st2 } fuel scope s j2 = some (some e2)) :
+    (∀ k, k ∈ e1.props ↔ k ∈ e2.props) ∧ (∀ i, i ∈ e1.items ↔ i ∈ e2.items) := by
+  have h := Inv.evalFuel_sim env st1 st2 hst hwf fuel scope s j1 j2 hj hw
+  rw [h1, h2] at h
+  exact h
+
+theorem spec_valid_perm_invariant (env : Spec.Env) (st1 st2 : Store) (hst : permStore st1 st2) (hwf : StoreWF st1)
+    (j1 j2 : Json) (hj : permJson j1 j2) (hw : Json.WF j1 = true) (fuel : Nat) (root : NodeId) :
+    Spec.valid { env with st := st1 } fuel root j1 = Spec.valid { env with st := st2 } fuel root j2 :=
+  spec_perm_invariant env st1 st2 hst hwf j1 j2 hj hw fuel [] root
+
+/-! ## the evaluator -/
+
+/-- **C14.**  Whenever the Spec decides, `Validate` on the permuted store and the permuted instance returns the same
+    verdict as on the original ones (through the refinement theorem C01 on both sides). -/
+theorem validate_perm_invariant (env : VEnv) (hwf : EnvWF env) (hst : StoreWF env.st) (st2 : Store)
+    (hperm : permStore env.st st2) (j1 j2 : Json) (hj : permJson j1 j2) (hw : Json.WF j1 = true)
+    (fuel : Nat) (root : NodeId) (b : Bool) (hs : Spec.valid (specEnvOf env) fuel root j1 = some b)
+    (supported : List String) (rn : Node) (hroot : env.st.get? root = some rn)
+    (hsup : supported.contains rn.schema = true) :
+    Go.validate { env with st := st2 } supported fuel root (GoVal.ofJson j2) = (if b then .ok () else .err) ∧
+    Go.validate env supported fuel root (GoVal.ofJson j1) = (if b then .ok () else .err) := by
+  refine ⟨?_, C01.C01_main env hwf hst fuel root j1 hw b hs supported rn hroot hsup⟩
+  obtain ⟨rn2, hroot2, hrn⟩ := Inv.permStore_get' hperm hroot
+  have hs2 : Spec.valid (specEnvOf { env with st := st2 }) fuel root j2 = some b := by
+    rw [← hs]
+    exact (spec_valid_perm_invariant (specEnvOf env) env.st st2 hperm hst j1 j2 hj hw fuel root).symm
+  exact C01.C01_main { env with st := st2 } (Inv.EnvWF_perm env st2 hperm hwf) (Inv.StoreWF_perm hperm hst) fuel root j2
+    (permJson_WF j1 j2 hj hw) b hs2 supported rn2 hroot2 (by rw [Inv.permNode_schema hrn]; exact hsup)
+
+/-- with C08: the same for ANY Go representations of the two instances (typed maps, whose iteration order Go
+    randomises, included) -/
+theorem validate_perm_repr_invariant (env : VEnv) (hwf : EnvWF env) (hst : StoreWF env.st) (st2 : Store)
+    (hperm : permStore env.st st2) (j1 j2 : Json) (hj : permJson j1 j2) (hw : Json.WF j1 = true)
+    (fuel : Nat) (root : NodeId) (b : Bool) (hs : Spec.valid (specEnvOf env) fuel root j1 = some b)
+    (supported : List String) (rn : Node) (hroot : env.st.get? root = some rn)
+    (hsup : supported.contains rn.schema = true)
+    (g1 g2 : GoVal) (h1 : GoVal.denote g1 = some j1) (h2 : GoVal.denote g2 = some j2) :
+    Go.validate { env with st := st2 } supported fuel root g2 = Go.validate env supported fuel root g1 := by
+  obtain ⟨ha, hb⟩ := validate_perm_invariant env hwf hst st2 hperm j1 j2 hj hw fuel root b hs supported rn hroot hsup
+  rw [C08.validate_repr_entry { env with st := st2 } hwf.hash_respects supported fuel root g2 j2 h2
+        (permJson_WF j1 j2 hj hw),
+      C08.validate_repr_entry env hwf.hash_respects supported fuel root g1 j1 h1 hw, ha, hb]
+
+/-! ## The hypotheses are satisfiable on non-trivial data
+
+`{"properties":{"a":{"type":"object","required":["x"]},"b":{"enum":[{"p":1,"q":[2]}]}},"patternProperties":{"^c":{}},
+  "dependentRequired":{"a":["b"],"b":["a"]},"unevaluatedProperties":false}`, once with the maps in this order and once
+in the opposite order. -/
+
+def exStore1 : Store := #[
+  { properties := some [("a", 1), ("b", 2)], patternProperties := some [("^c", 3)],
+    dependentRequired := some [("a", some ["b"]), ("b", some ["a"])], unevaluatedProperties := some 4 },
+  { type := "object", required := some ["x"] },
+  { enum := some [.obj [("p", .num 1), ("q", .arr [.num 2])]] },
+  {},
+  { not := some 5 },
+  {} ]
+
+def exStore2 : Store := #[
+  { properties := some [("b", 2), ("a", 1)], patternProperties := some [("^c", 3)],
+    dependentRequired := some [("b", some ["a"]), ("a", some ["b"])], unevaluatedProperties := some 4 },
+  { type := "object", required := some ["x"] },
+  { enum := some [.obj [("p", .num 1), ("q", .arr [.num 2])]] },
+  {},
+  { not := some 5 },
+  {} ]
+
+def exInfos : List (NodeId × Info) :=
+  [(0, { path := "root", base := some 0 }), (1, { base := some 0 }), (2, { base := some 0 }), (3, { base := some 0 }),
+   (4, { base := some 0 }), (5, { base := some 0 })]
+
+def exEnv : VEnv :=
+  { st := exStore1, draft := .d2020, infos := exInfos, reMatch := fun re k => re == "^c" && (k == "c" || k == "cc"),
+    hash := fun _ => 0 }
+
+theorem exEnv_wf : EnvWF exEnv := EnvWF_of_checks exEnv (by decide) (by decide) (fun _ _ _ => rfl)
+theorem exEnv_store : StoreWF exEnv.st := StoreWF_of_check _ (by decide)
+
+theorem exPermStore : permStore exStore1 exStore2 := by
+  refine ⟨rfl, fun i => ?_⟩
+  match i with
+  | 0 =>
+    exact ⟨some [("b", 2), ("a", 1)], some [("^c", 3)], none, none, none, none,
+      some [("b", some ["a"]), ("a", some ["b"])], none,
+      List.Perm.swap _ _ _, List.Perm.refl _, trivial, trivial, trivial, trivial, List.Perm.swap _ _ _, trivial, rfl⟩
+  | 1 => exact Inv.permNode.refl _
+  | 2 => exact Inv.permNode.refl _
+  | 3 => exact Inv.permNode.refl _
+  | 4 => exact Inv.permNode.refl _
+  | 5 => exact Inv.permNode.refl _
+  | n + 6 => trivial
+
+/-- `{"a":{"x":1,"y":2},"b":{"p":1,"q":[2]},"cc":null}` and the same with members reordered at both depths -/
+def exJ1 : Json :=
+  .obj [("a", .obj [("x", .num 1), ("y", .num 2)]), ("b", .obj [("p", .num 1), ("q", .arr [.num 2])]), ("cc", .null)]
+def exJ2 : Json :=
+  .obj [("cc", .null), ("b", .obj [("q", .arr [.num 2]), ("p", .num 1)]), ("a", .obj [("y", .num 2), ("x", .num 1)])]
+
+theorem exPermJson : permJson exJ1 exJ2 := by
+  refine (permJson_obj _ _).2
+    ⟨[("a", .obj [("y", .num 2), ("x", .num 1)]), ("b", .obj [("q", .arr [.num 2]), ("p", .num 1)]), ("cc", .null)],
+     ⟨⟨rfl, ?_⟩, ⟨rfl, ?_⟩, ⟨rfl, permJson_refl _⟩, trivial⟩, ?_⟩
+  · exact permJson_of_perm _ _ (List.Perm.swap _ _ _)
+  · exact permJson_of_perm _ _ (List.Perm.swap _ _ _)
+  · exact (List.Perm.swap _ _ _).trans ((List.Perm.cons _ (List.Perm.swap _ _ _)).trans (List.Perm.swap _ _ _))
+
+example : Json.WF exJ1 = true := by decide
+/-- `eqv_perm` applied; and by computation -/
+example : Json.eqv exJ1 exJ2 = true := eqv_perm exJ1 exJ2 exPermJson (by decide) (by decide)
+example : Json.eqv exJ1 exJ2 = true := by decide
+
+/-- the Spec decides: valid (`cc` is covered by the pattern, `a`/`b` by properties, both dependencies hold,
+    the enum member equals `b`'s value whatever the order) -/
+example : Spec.valid (specEnvOf exEnv) 4 0 exJ1 = some true := by decide
+/-- `validate_perm_invariant` applied: permuted store and permuted instance, same verdict … -/
+example : Go.validate { exEnv with st := exStore2 } [""] 4 0 (GoVal.ofJson exJ2) = .ok () :=
+  (validate_perm_invariant exEnv exEnv_wf exEnv_store exStore2 exPermStore exJ1 exJ2 exPermJson (by decide) 4 0 true
+    (by decide) [""] _ rfl (by decide)).1
+/-- … and by running the model on the four combinations -/
+example : Go.validate exEnv [""] 4 0 (GoVal.ofJson exJ1) = .ok () := by decide
+example : Go.validate exEnv [""] 4 0 (GoVal.ofJson exJ2) = .ok () := by decide
+example : Go.validate { exEnv with st := exStore2 } [""] 4 0 (GoVal.ofJson exJ1) = .ok () := by decide
+example : Go.validate { exEnv with st := exStore2 } [""] 4 0 (GoVal.ofJson exJ2) = .ok () := by decide
+
+/-- an invalid instance (`a` lacks `x`; `d` is unevaluated) stays invalid -/
+def exBad1 : Json := .obj [("a", .obj [("y", .num 2)]), ("d", .null)]
+def exBad2 : Json := .obj [("d", .null), ("a", .obj [("y", .num 2)])]
+example : Spec.valid (specEnvOf exEnv) 4 0 exBad1 = some false := by decide
+example : Go.validate { exEnv with st := exStore2 } [""] 4 0 (GoVal.ofJson exBad2) = .err :=
+  (validate_perm_invariant exEnv exEnv_wf exEnv_store exStore2 exPermStore exBad1 exBad2
+    (permJson_of_perm _ _ (List.Perm.swap _ _ _)) (by decide) 4 0 false (by decide) [""] _ rfl (by decide)).1
+
+/-- `depRequiredLoop_perm`, `allPresent_perm` applied -/
+example (kvs : List (String × GoVal)) :
+    Go.depRequiredLoop kvs [("a", some ["b"]), ("b", some ["a"])] = Go.depRequiredLoop kvs [("b", some ["a"]), ("a", some ["b"])] :=
+  depRequiredLoop_perm kvs _ _ (List.Perm.swap _ _ _)
+example (kvs : List (String × GoVal)) : Go.allPresent kvs ["x", "y"] = Go.allPresent kvs ["y", "x"] :=
+  allPresent_perm kvs _ _ (List.Perm.swap _ _ _)
+
+/-! ## why `propertiesLoop_perm` needs decided applications
+
+With a subschema that panics (nil `*Schema` in the map: node 9 does not exist) and one that fails, the first one
+met decides: the result depends on the iteration order.  `Resolve` rejects such schemas (checkStructure). -/
+
+example :
+    Go.propertiesLoop (Go.validateFuel exEnv 2) [] [("a", .str "s"), ("b", .str "s")] [("a", 1), ("b", 9)] [] = .err ∧
+    Go.propertiesLoop (Go.validateFuel exEnv 2) [] [("a", .str "s"), ("b", .str "s")] [("b", 9), ("a", 1)] [] = .panic := by
+  decide
 
 end JSV.C14
